@@ -8,7 +8,10 @@ evaluated on the implementation's own datagrams / returned structs.
 Observation is by replacing the module attributes `socket` and `time` of
 rig.machine_control.boot (no source change).  Every history starts from a
 freshly (re)loaded boot module, i.e. from the state of a new process."""
+import enum
 import importlib
+import json
+import operator
 import os
 import random
 import shutil
@@ -38,33 +41,62 @@ CLAIM = dict(
     design="3/C20",
     note=("Domain: 4 | len image, 512 <= len image < 32 KiB, non-overlapping integer fields inside the struct, options "
           "naming fields with values that fit. Outside the domain only the correspondence is checked. The sleeps are "
-          "recorded but real time is not measured."),
+          "recorded (their values must be this call's delays) but real time is not measured; a wrong delay, a wrong "
+          "connect target or a wrong direct boot_packet() result is a correspondence mismatch, not a violation (the "
+          "property text speaks about the datagrams and the returned definitions). Checklist items judged not "
+          "applicable: hashable identifiers / collections-as-iterables / lazily consumed results (boot takes and "
+          "returns none; its only collection argument is the sv_overrides mapping, exercised as dict, OrderedDict, "
+          "defaultdict and a dict subclass); read_struct_file(bytearray / memoryview) (the parser uses the tokens as "
+          "dict keys: only bytes is legal); 257 blocks / 65,537 blocks (the DTCM assertion bounds a boot at 32 blocks, "
+          "theorem boot_sequence; the 8-bit block number can never wrap); recursion depth (nothing in scope is "
+          "recursive); per-chip configuration (boot talks to one unbooted board; layouts, bases, images, ports and "
+          "delays do vary per call and per controller). Left at their defaults: MachineController.boot("
+          "only_if_needed=True / check_booted=True) (they decide WHETHER to boot and wait afterwards by talking SCP "
+          "to a machine - C18/C09 territory; the boot datagrams are the same call of boot.boot), and "
+          "MachineController(scp_port, n_tries, timeout, initial_context) (not used by boot); hostname is always a "
+          "non-empty string (a real UDP socket is opened for controllers)."),
     technique="Lean 4 theorems over a hand-written model + differential correspondence over histories + Lean spec as oracle")
 
 THEOREMS = ["consts_documented", "sv_table_ok", "boot_sequence", "unswap_concat", "config_area",
             "struct_pack_spec", "returned_defaults", "boot_meets_spec", "state_unchanged",
             "history_independent", "history_meets_spec", "fresh_process_default", "leak_witness"]
 
-RULE = ("histories of 1-6 boot() calls from freshly loaded struct_file/boot modules: hosts/ports vary, images are the "
-        "bundled scamp.boot or random byte strings (every block count 1..32 in the thorough tier, lengths at block "
-        "edges, plus out-of-domain short / unaligned / oversize images), struct file = bundled sark.struct or a "
-        "synthetic table (well-formed, overlapping, overflowing, unpackable), options = none / board preset / random "
-        "overrides of any field via keywords, via a fresh sv_overrides dict, via a caller dict reused across calls, "
-        "or via both (incl. the same variable in both), edge and out-of-range values, 0 / False for variables whose "
-        "file default is non-zero, non-integer values, unknown names; clock values incl. t1 != t2 and > 2^32; a share "
-        "of calls goes through MachineController.boot. Between boots the caller constructs MachineControllers, "
-        "parses other struct files and edits results it was given; every result returned by boot() is KEPT, must "
-        "not share mutable objects with another result, and is re-read and re-judged after every later boot and "
-        "every such step (the replay carries the whole history incl. the steps). A history is non-trivial when it "
-        "is in the property's domain and either some call carries options that a later call does not ask for (a "
-        "leak would be visible) or a result obtained with options is read again after a later boot / step; "
-        "distinct = distinct canonical JSON")
+RULE = ("STREAM histories: 1-6 boot() calls from freshly loaded struct_file/boot modules: hosts, ports (default, 0, 1, "
+        "65535, random), delays (defaults, 0, 0.0, given), keyword and positional convention, file names as str / "
+        "bytes / pathlib, through boot.boot or MachineController.boot (plain / subclass / structs= given / deprecated "
+        "width,height), images = bundled scamp.boot or random bytes (every block count 1..32 in the thorough tier, "
+        "block edges, out-of-domain short / unaligned / oversize), struct file = bundled sark.struct or a synthetic "
+        "layout (well-formed, overlapping, overflowing, unpackable; bases and other structs differ), options = none "
+        "/ board preset / any field via keywords, via a fresh sv_overrides mapping (dict, OrderedDict, defaultdict, "
+        "dict subclass), via a caller mapping reused across calls, via both incl. the same variable in both; values "
+        "as int, bool, IntEnum member, numpy integer, edge / out-of-range / BIG (2^31 .. 2^100) integers, 0 / False "
+        "for variables with non-zero defaults, non-integers (None, '', float), unknown names; clocks incl. t1 != t2 "
+        "and 2^32 .. 2^100; the same call again; two layouts and two controllers used alternately; injected faults "
+        "(missing file, connect fails, n-th send fails) followed by further boots with the same objects. Between "
+        "boots the caller constructs MachineControllers, parses other struct files, edits dictionaries it passed "
+        "(set / del / clear) and edits results it was given; every result of boot() is KEPT, must not share mutable "
+        "objects with another result, and is re-read, re-packed (Struct.pack) and re-judged by the Lean predicates "
+        "returnedOK / configOK after every later boot and step. Each call runs under a CPU limit (did-not-return). "
+        "STREAM twins: two boots equal in all but one aspect (one option value / added / zero, host, port, one image "
+        "byte, clock, keyword-vs-mapping delivery, one layout default, layout base, delay, function-vs-controller) as "
+        "[A,B] and [B,A]. STREAM scale: a 400-field struct with a 65,537-element array field and 3,000 comment "
+        "lines and 200 overrides; every sv variable overridden in one call; 40 boots alternating two controllers and "
+        "two layouts. STREAM packets: boot_packet() called directly (positional / keyword / defaults; command as int, "
+        "BootCommand, numpy; arguments up to and beyond 32 bits; data as bytes / bytearray / memoryview of every "
+        "length mod 4) against the model bootPacketChecked (mismatch only). Verdicts: Lean specOK + configOK on "
+        "pack() of the returned definition on every in-domain call with valid options; exact event/result/caller-"
+        "dictionary comparison with the Lean model everywhere. A history is non-trivial when it is in the domain "
+        "and either some call carries options that a later call does not ask for or a result obtained with options "
+        "is read again after a later boot / step; a packet case when it carries data; distinct = distinct canonical "
+        "JSON; the replay carries the whole history incl. steps, faults and calling conventions")
 
 RESERVED = {"hostname", "boot_port", "scamp_binary", "sark_struct", "boot_delay", "post_boot_delay",
             "sv_overrides", "width", "height", "only_if_needed", "check_booted"}
 RANGE = {"B": (0, 255), "b": (-128, 127), "H": (0, 65535), "I": (0, 2 ** 32 - 1)}
 PERL = {"B": "C", "b": "c", "H": "v", "I": "V"}
-BOOT_DELAY, POST_DELAY = 0.25, 0.75
+BOOT_DELAY, POST_DELAY = 0.25, 0.75        # delays of calls that do not say otherwise (old replays)
+DEFAULT_DELAYS = (0.05, 2.0)                # boot()'s own defaults
+BIG = [2 ** 31 - 1, 2 ** 31, 2 ** 32 - 1, 2 ** 32, 2 ** 53 + 1, 2 ** 63, 2 ** 64, 2 ** 100]
 
 _cache = {}
 
@@ -86,7 +118,11 @@ def image_bytes(spec):
     if spec["kind"] == "default":
         default_table()
         return _cache["image"]
-    return random.Random(spec["seed"]).randbytes(spec["len"])
+    b = random.Random(spec["seed"]).randbytes(spec["len"])
+    if spec.get("flip") is not None and b:           # a twin image: one byte differs
+        i = spec["flip"] % len(b)
+        b = b[:i] + bytes([b[i] ^ 0x5a]) + b[i + 1:]
+    return b
 
 
 def gen_image(rng, force_len=None):
@@ -148,18 +184,23 @@ def gen_table(rng):
         rng.shuffle(fields)
     if rng.random() < 0.2 and fields:
         fields[rng.randrange(len(fields))][5] = rng.randrange(2, 20)     # an array field (length is not packed)
-    return {"size": size, "fields": fields}
+    t = {"size": size, "fields": fields}
+    if rng.random() < 0.5:                            # layouts differ in base address and in their other struct
+        t["base"] = rng.choice([0, 0x10, 0xf5007f00, 0xe5007f00, 2 ** 32 - 256])
+        t["other"] = rng.choice([7, 0, 255, 2 ** 32 - 1])
+    return t
 
 
 def struct_text(table, rng):
-    out = ["# synthetic struct file", "name = sv", "size = %d" % table["size"],
-           "base = 0x%x" % 0xf5007f00, ""]
+    out = ["# synthetic struct file"] + ["# padding line %d" % i for i in range(table.get("comments", 0))]
+    out += ["name = sv", "size = %d" % table["size"], "base = 0x%x" % table.get("base", 0xf5007f00), ""]
     for n, p, off, pf, d, ln in table["fields"]:
         perl = PERL[p] if p in PERL else "A" + p[:-1]
         nm = n if ln == 1 else "%s[%d]" % (n, ln)
-        ds = ("0x%x" % d) if (d >= 0 and rng.random() < 0.4) else str(d)
-        out.append("%-20s %s  0x%02x  %s  %s   # c" % (nm, perl, off, pf, ds))
-    out += ["", "name = other", "size = 8", "base = 0", "x V 0 %d 7", ""]
+        ds = (rng.choice(["0x%x", "0X%X", "0x%08x"]) % d) if (d >= 0 and rng.random() < 0.4) else str(d)
+        offs = rng.choice(["0x%02x", "0x%02x", "%d", "0X%X"]) % off
+        out.append("%-20s %s  %s  %s  %s   # c" % (nm, perl, offs, pf, ds))
+    out += ["", "name = other", "size = 8", "base = 0", "x V 0 %%d %d" % table.get("other", 7), ""]
     return "\n".join(out).encode()
 
 
@@ -167,13 +208,51 @@ NONZERO_DEFAULT = None
 
 
 def lean_value(v):
-    """option values as the model sees them: bools are ints; a value struct.pack cannot take as an integer
-    (None, "", ...) fits no field, exactly like an integer that is out of range for every pack code"""
-    if isinstance(v, bool):
-        return int(v)
-    if isinstance(v, int):
+    """option values as the model sees them: anything with __index__ (bool, IntEnum member, numpy integer) is
+    that integer; a value struct.pack cannot take as an integer (None, "", 1.0, ...) fits no field, exactly like
+    an integer that is out of range for every pack code.  Works on case encodings and on live objects."""
+    if isinstance(v, dict):
+        return lean_value(v["v"]) if v.get("k") != "float" else 2 ** 70
+    if isinstance(v, float):
+        return 2 ** 70
+    try:
+        return operator.index(v)
+    except TypeError:
+        return 2 ** 70
+
+
+_ENUMS = {}
+
+
+def py_value(v):
+    """the live object for a case-encoded option value"""
+    if not isinstance(v, dict):
         return v
-    return 2 ** 70
+    k, n = v["k"], v["v"]
+    if k == "enum":
+        if n not in _ENUMS:
+            _ENUMS[n] = enum.IntEnum("Opt%d" % len(_ENUMS), {"member": n}).member
+        return _ENUMS[n]
+    if k == "np":
+        import numpy
+        t = (numpy.uint8 if 0 <= n < 256 else numpy.int16 if -2 ** 15 <= n < 2 ** 15 else
+             numpy.uint32 if 0 <= n < 2 ** 32 else numpy.int64 if -2 ** 63 <= n < 2 ** 63 else numpy.uint64)
+        return t(n)
+    if k == "float":
+        return float(n)
+    raise ValueError(k)
+
+
+def wrap_value(rng, n):
+    """the same integer in another kind struct.pack accepts (tagged by the caller)"""
+    r = rng.random()
+    if r < 0.06:
+        return {"k": "enum", "v": n}
+    if r < 0.12 and -2 ** 63 <= n < 2 ** 64:
+        return {"k": "np", "v": n}
+    if r < 0.14 and n in (0, 1):
+        return bool(n)
+    return n
 
 
 def lean_dict(d):
@@ -184,10 +263,11 @@ def gen_value(rng, pack):
     lo, hi = RANGE.get(pack, (0, 255))
     r = rng.random()
     if r < 0.025:
-        return rng.choice([hi + 1, lo - 1, hi + rng.randrange(1, 1000), -1 if lo == 0 else lo - 5, 2 ** 32, 2 ** 40])
+        return wrap_value(rng, rng.choice([hi + 1, lo - 1, hi + rng.randrange(1, 1000), -1 if lo == 0 else lo - 5,
+                                           2 ** 40, -2 ** 31, -2 ** 63] + BIG))
     if r < 0.3:
-        return rng.choice([lo, hi, 0, 1])
-    return rng.randint(lo, hi)
+        return wrap_value(rng, rng.choice([lo, hi, 0, 1]))
+    return wrap_value(rng, rng.randint(lo, hi))
 
 
 def gen_opts(rng, table, allow_reserved):
@@ -202,10 +282,32 @@ def gen_opts(rng, table, allow_reserved):
         for f in rng.sample(nz, min(len(nz), rng.choice([1, 1, 2]))):
             d.insert(rng.randrange(len(d) + 1), [f[0], rng.choice([0, 0, 0, False])])
     if d and rng.random() < 0.02:
-        d[rng.randrange(len(d))][1] = rng.choice([None, ""])      # not an integer: struct.error
+        d[rng.randrange(len(d))][1] = rng.choice([None, "", {"k": "float", "v": 1}])   # not an integer: struct.error
     if rng.random() < 0.04:
         d.insert(rng.randrange(len(d) + 1), [rng.choice(["bogus", "hw_version", "led2"]), rng.choice([1, 0])])
     return d
+
+
+def gen_call_extras(rng, c):
+    """everything about HOW the call is made (checklist: optional parameters non-default incl. 0, positional and
+    keyword convention, path kinds, controller variants, faults)"""
+    c["delays"] = rng.choice([[BOOT_DELAY, POST_DELAY]] * 3 + [[None, None], [0, 0], [0.0, 2], [0.01, None],
+                                                               [None, 0], [1, 0.5], [0.05, 2.0]])
+    c["paths"] = rng.choice(["str"] * 4 + ["bytes", "pathlib"])
+    if c["via"] == "function":
+        if rng.random() < 0.2:
+            c["style"] = "positional"
+    else:
+        c["mc"] = {"subclass": rng.random() < 0.3, "structs": rng.random() < 0.3,
+                   "width": rng.choice([None, None, 2, 0])}
+    r = rng.random()
+    if r < 0.03:
+        c["fault"] = {"kind": "connect"}
+    elif r < 0.07:
+        c["fault"] = {"kind": "send", "n": rng.choice([0, 1, 1, 2, 3, 5, 33])}
+    elif r < 0.09:
+        c["fault"] = {"kind": "nofile", "which": rng.choice(["image", "struct"])}
+    return c
 
 
 def gen_history(rng, force_len=None):
@@ -213,17 +315,29 @@ def gen_history(rng, force_len=None):
     presets = _cache["presets"]
     n_store = rng.choice([0, 0, 1, 1, 2])
     shared_table = None if rng.random() < 0.7 else gen_table(rng)
+    other_table = gen_table(rng)                 # a second layout, used alternately with the first
     store, calls = [], []
     for _ in range(n_store):
         store.append(gen_opts(rng, shared_table or default_table(), True))
     n_calls = rng.choice([1, 2, 2, 3, 3, 4, 5, 6])
+    alternate = rng.random() < 0.15              # two layouts / two controllers used alternately
     for i in range(n_calls):
+        if calls and rng.random() < 0.12:        # the same call again
+            c = json.loads(json.dumps(calls[-1]))
+            c.pop("fault", None)
+            c["after"] = gen_steps(rng, i, n_calls, c["table"] or default_table(), store)
+            calls.append(c)
+            continue
         table = shared_table if rng.random() < 0.85 else (None if rng.random() < 0.5 else gen_table(rng))
+        if alternate:
+            table = shared_table if i % 2 == 0 else other_table
         tab = table or default_table()
         c = {"host": rng.choice(["board%d" % rng.randrange(4), "127.0.0.%d" % rng.randrange(1, 9)]),
-             "port": rng.choice([None, None, rng.randrange(1024, 65536)]),
+             "port": rng.choice([None, None, None, rng.randrange(1024, 65536), 0, 1, 65535]),
              "image": gen_image(rng, force_len if i == 0 else None), "table": table,
              "sv": None, "kwargs": [], "via": "function"}
+        if alternate:
+            c["host"] = "127.0.0.%d" % (1 + i % 2)
         r = rng.random()
         if r < 0.25:
             pass                                              # no options at all
@@ -246,17 +360,19 @@ def gen_history(rng, force_len=None):
             if rng.random() < 0.6:
                 c["kwargs"] = gen_opts(rng, tab, False)
         t = rng.choice([0, 1, 1443571200, 1700000000 + rng.randrange(10 ** 8), 2 ** 32 - 1,
-                        rng.randrange(2 ** 32)] + ([2 ** 32, 2 ** 32 + 5] if rng.random() < 0.06 else []))
+                        rng.randrange(2 ** 32)] + ([rng.choice(BIG[3:])] if rng.random() < 0.06 else []))
         c["t1"] = t
         c["t2"] = t + rng.choice([0, 0, 1, 1, 2])
-        if c["host"].startswith("127.") and rng.random() < 0.5:
+        if c["host"].startswith("127.") and rng.random() < (0.9 if alternate else 0.5):
             c["via"] = "controller"
-        c["after"] = gen_steps(rng, i, n_calls, tab)
+        gen_call_extras(rng, c)
+        c["after"] = gen_steps(rng, i, n_calls, tab, store)
         calls.append(c)
-    return {"store": store, "calls": calls}
+    kinds = [rng.choice(["dict"] * 3 + ["ordered", "subclass", "defaultdict"]) for _ in store]
+    return {"store": store, "store_kinds": kinds, "calls": calls}
 
 
-def gen_steps(rng, i, n_calls, tab):
+def gen_steps(rng, i, n_calls, tab, store=()):
     """what the caller does between this boot and the next: every kept result is re-checked after each step"""
     steps = []
     if rng.random() < 0.25:
@@ -271,20 +387,42 @@ def gen_steps(rng, i, n_calls, tab):
     if i == n_calls - 1 and n_calls >= 2 and rng.random() < 0.85:
         steps.append({"do": "mutate", "target": i, "how": "all", "field": rng.choice(names),
                       "value": rng.randrange(1, 256)})
+    if store and rng.random() < 0.2:                # the caller edits a dictionary it passed (or will pass)
+        op = rng.choice(["set", "set", "del", "del", "clear"])
+        di = rng.randrange(len(store))
+        f = rng.choice([f for f in tab["fields"] if f[0] not in ("unix_time", "boot_sig", "root_chip")] or [["hw_ver", "B"]])
+        key = rng.choice([k for k, _ in store[di]]) if (op == "del" and store[di]) else f[0]
+        pk = [g[1] for g in tab["fields"] if g[0] == key]
+        steps.append({"do": "edit_dict", "index": di, "op": op, "key": key,
+                      "value": gen_value(rng, pk[0] if pk else "B")})
     rng.shuffle(steps)
     return steps
 
 
 # ------------------------------------------------------------ implementation
+MAX_EVENTS = 4000      # a boot has at most 2 + 32 datagrams; a runaway loop must not fill the memory
+
+
 class FakeSock(object):
-    def __init__(self, log, udp):
-        self.log, self.udp = log, udp
+    def __init__(self, log, udp, mod):
+        self.log, self.udp, self.mod = log, udp, mod
 
     def connect(self, addr):
+        f = self.mod.fault
+        if f and f["kind"] == "connect":
+            self.mod.fault = None
+            raise OSError(113, "injected: no route to host")
         self.log.append(["connect", str(addr[0]), int(addr[1])] + ([] if self.udp else ["not-udp"]))
 
     def send(self, data):
-        self.log.append(["send", bytes(data).hex()])
+        f = self.mod.fault
+        if f and f["kind"] == "send":
+            if self.mod.sends == f["n"]:
+                self.mod.fault = None
+                raise OSError(101, "injected: network is unreachable")
+            self.mod.sends += 1
+        if len(self.log) < MAX_EVENTS:
+            self.log.append(["send", bytes(data).hex()])
         return len(data)
 
     def sendall(self, data):
@@ -310,9 +448,10 @@ class FakeSocketModule(object):
         self.log, self.real = log, real
         self.AF_INET, self.SOCK_DGRAM = real.AF_INET, real.SOCK_DGRAM
         self.error, self.timeout = real.error, real.timeout
+        self.fault, self.sends = None, 0
 
     def socket(self, family=None, kind=None, *a):
-        return FakeSock(self.log, family == self.real.AF_INET and kind == self.real.SOCK_DGRAM)
+        return FakeSock(self.log, family == self.real.AF_INET and kind == self.real.SOCK_DGRAM, self)
 
     def __getattr__(self, name):
         return getattr(self.real, name)
@@ -327,7 +466,8 @@ class FakeTime(object):
         return float(v) + 0.5
 
     def sleep(self, x):
-        self.log.append(["sleep", "boot" if x == BOOT_DELAY else "post" if x == POST_DELAY else repr(x)])
+        if len(self.log) < MAX_EVENTS:
+            self.log.append(["sleep", x if isinstance(x, (int, float)) and not isinstance(x, bool) else repr(x)])
 
 
 def canon_struct(s):
@@ -339,8 +479,12 @@ def snapshot(structs):
     """canonical deep copy of a {name: Struct} dictionary (nothing shared with the live objects)"""
     try:
         sv = structs.get(b"sv")
+        try:
+            packed = sv.pack().hex() if sv is not None else None
+        except Exception as e:      # noqa
+            packed = "error: " + type(e).__name__
         return {"sv": canon_struct(sv) if sv is not None else None,
-                "svmeta": [sv.size, sv.base] if sv is not None else None,
+                "svmeta": [sv.size, sv.base] if sv is not None else None, "packed": packed,
                 "others": sorted([n.decode("latin-1"), t.size, t.base, canon_struct(t)]
                                  for n, t in structs.items() if n != b"sv")}
     except Exception as e:      # noqa
@@ -400,6 +544,8 @@ def classify(e):
         return {"err": "KeyError", "key": k.decode("latin-1") if isinstance(k, bytes) else str(k)}
     if isinstance(e, struct.error):
         return {"err": "struct.error"}
+    if isinstance(e, OSError):
+        return {"err": "OSError"}
     if isinstance(e, AssertionError):
         line = last.line or ""
         if last.name == "boot_packet":
@@ -412,10 +558,39 @@ def classify(e):
     return {"err": "Other:" + type(e).__name__, "detail": repr(e)[:200]}
 
 
+_HANGS = [0]
+
+
+def hang_limit():
+    """CPU seconds one implementation call may take: a boot takes 5-30 ms, so 5 s is > 100x; lowered after a
+    few calls did not return so that the run stays short (the run stops generating after 20 such calls)"""
+    return 5 if _HANGS[0] < 3 else 1 if _HANGS[0] < 10 else 0.5
+
+
+class CallerDict(dict):
+    """a caller's own dict subclass"""
+
+
+def make_dict(kind, pairs):
+    items = [(k, py_value(v)) for k, v in pairs]
+    if kind == "ordered":
+        import collections
+        return collections.OrderedDict(items)
+    if kind == "defaultdict":
+        import collections
+        d = collections.defaultdict(int)
+        d.update(items)
+        return d
+    if kind == "subclass":
+        return CallerDict(items)
+    return dict(items)
+
+
 def run_impl(case):
     """Run one history on the real code.  Returns (outcomes, final caller dicts, kept) where kept =
     {"late": [...], "shared": [...], "aux": [...], "rechecks": n}: every returned struct dictionary is
     KEPT and compared with its own first snapshot after every later boot and every caller step."""
+    from harness import common
     import rig.machine_control.struct_file as sf_mod
     import rig.machine_control.boot as boot_mod
     importlib.reload(sf_mod)            # fresh function objects = fresh process state
@@ -425,13 +600,15 @@ def run_impl(case):
     real_socket, real_time = boot_mod.socket, boot_mod.time
     boot_mod.socket, boot_mod.time = FakeSocketModule(log), ftime
     tmp = tempfile.mkdtemp(prefix="c20-")
-    store = [dict((k, v) for k, v in d) for d in case["store"]]
+    kinds = case.get("store_kinds") or ["dict"] * len(case["store"])
+    store = [make_dict(kd, d) for kd, d in zip(kinds, case["store"])]
     outcomes = []
     mcs = {}
     results = []        # kept results of boot(): {"call", "obj", "first", "released"}
     aux = []            # other struct dictionaries alive in the process: {"what", "obj", "first", "want"}
     kept = {"late": [], "shared": [], "aux": [], "rechecks": 0}
     alive = []
+    fsock = boot_mod.socket
 
     def recheck(label):
         for r in results:
@@ -452,50 +629,97 @@ def run_impl(case):
         first = snapshot(obj)
         aux.append({"what": what, "obj": obj, "first": first})
         want = expected_structs(table)
-        if first != want:
+        if any(first.get(k) != want[k] for k in want):
             kept["aux"].append("%s does not equal the independent parse of its struct file" % what)
 
-    def new_controller(host, port):
+    def default_text():
+        from harness import common
+        return open(os.path.join(common.REPO, "rig/boot/sark.struct"), "rb").read()
+
+    def new_controller(host, port, opt=None):
         from rig.machine_control.machine_controller import MachineController
-        mc = MachineController(host) if port is None else MachineController(host, boot_port=port)
+        opt = opt or {}
+        cls = MachineController
+        if opt.get("subclass"):
+            cls = type("CallerController", (MachineController,), {})
+        kw = {}
+        if port is not None:
+            kw["boot_port"] = port
+        if opt.get("structs"):
+            kw["structs"] = sf_mod.read_struct_file(default_text())
+        mc = cls(host, **kw)
         alive.append(mc)
         keep_aux("structs of MachineController(%r)" % host, mc.structs, None)
         return mc
+
+    def conv_path(pth, kind):
+        if kind == "bytes":
+            return os.fsencode(pth)
+        if kind == "pathlib":
+            import pathlib
+            return pathlib.Path(pth)
+        return pth
     try:
         for i, c in enumerate(case["calls"]):
             del log[:]
             ftime.script = [c["t1"], c["t2"]]
-            kw = dict(boot_delay=BOOT_DELAY, post_boot_delay=POST_DELAY)
+            bd, pd = c.get("delays", [BOOT_DELAY, POST_DELAY])
+            kw = {}
+            if bd is not None:
+                kw["boot_delay"] = bd
+            if pd is not None:
+                kw["post_boot_delay"] = pd
+            fault = c.get("fault")
             if c["image"]["kind"] != "default":
                 p = os.path.join(tmp, "img%d.bin" % i)
                 open(p, "wb").write(image_bytes(c["image"]))
-                kw["scamp_binary"] = p
+                kw["scamp_binary"] = conv_path(p, c.get("paths", "str"))
             if c["table"] is not None:
                 p = os.path.join(tmp, "s%d.struct" % i)
                 open(p, "wb").write(struct_text(c["table"], random.Random(i)))
-                kw["sark_struct"] = p
+                kw["sark_struct"] = conv_path(p, c.get("paths", "str"))
+            if fault and fault["kind"] == "nofile":
+                kw["scamp_binary" if fault["which"] == "image" else "sark_struct"] = os.path.join(tmp, "missing-%d" % i)
             if c["sv"] is not None:
                 kw["sv_overrides"] = store[c["sv"]]
             for k, v in c["kwargs"]:
-                kw[k] = v
+                kw[k] = py_value(v)
+            fsock.fault = dict(fault) if fault and fault["kind"] in ("connect", "send") else None
+            fsock.sends = 0
             try:
-                if c["via"] == "controller":
-                    key = (c["host"], c["port"])
-                    if key not in mcs:
-                        mcs[key] = new_controller(c["host"], c["port"])
-                        recheck("constructing the MachineController used by call %d" % i)
-                    mc = mcs[key]
-                    sent = mc.boot(only_if_needed=False, check_booted=False, **kw)
-                    structs = mc.structs
-                    extra = [] if sent is True else ["controller-returned-%r" % (sent,)]
-                else:
-                    if c["port"] is not None:
-                        kw["boot_port"] = c["port"]
-                    structs = boot_mod.boot(c["host"], **kw)
-                    extra = []
+                # every call of the model terminates (total Lean functions); a boot takes milliseconds: a call still
+                # running after 5 s of CPU time is reported as not having returned (1 s after 4 such calls)
+                with common.cpu_limit(hang_limit()):
+                    if c["via"] == "controller":
+                        key = (c["host"], c["port"])
+                        if key not in mcs:
+                            mcs[key] = new_controller(c["host"], c["port"], c.get("mc"))
+                            recheck("constructing the MachineController used by call %d" % i)
+                        mc = mcs[key]
+                        width = (c.get("mc") or {}).get("width")
+                        if width is not None:
+                            kw.update(width=width, height=width)
+                        sent = mc.boot(only_if_needed=False, check_booted=False, **kw)
+                        structs = mc.structs
+                        extra = [] if sent is True else ["controller-returned-%r" % (sent,)]
+                    elif c.get("style") == "positional":
+                        opts_kw = dict((k, py_value(v)) for k, v in c["kwargs"])
+                        structs = boot_mod.boot(c["host"], c["port"] if c["port"] is not None else _cache["BOOT_PORT"],
+                                                kw.get("scamp_binary"), kw.get("sark_struct"),
+                                                bd if bd is not None else DEFAULT_DELAYS[0],
+                                                pd if pd is not None else DEFAULT_DELAYS[1],
+                                                kw.get("sv_overrides", {}), **opts_kw)
+                        extra = []
+                    else:
+                        if c["port"] is not None:
+                            kw["boot_port"] = c["port"]
+                        structs = boot_mod.boot(c["host"], **kw)
+                        extra = []
                 first = snapshot(structs)
                 if "broken" in first or first["sv"] is None:
                     raise TypeError("boot() returned something that is not {name: Struct} with an sv entry: %r" % (first,))
+                if snapshot(structs) != first:
+                    extra = extra + ["reading-the-result-twice-differs"]
                 res = {"ok": first["sv"]}
                 others, svmeta = first["others"], first["svmeta"]
                 for r in results:
@@ -504,19 +728,30 @@ def run_impl(case):
                         if sh_:
                             kept["shared"].append("results of call %d and call %d share %s" % (r["call"], i, ", ".join(sh_)))
                 results.append({"call": i, "obj": structs, "first": first, "released": False})
+            except common.ImplHang as e:
+                _HANGS[0] += 1
+                res, others, svmeta, extra, first = {"err": "DidNotReturn", "detail": str(e)}, None, None, [], {}
             except Exception as e:          # noqa
-                res, others, svmeta, extra = classify(e), None, None, []
+                res, others, svmeta, extra, first = classify(e), None, None, [], {}
+            fsock.fault = None
             outcomes.append({"events": [list(x) for x in log] + extra, "result": res,
-                             "others": others, "svmeta": svmeta})
+                             "others": others, "svmeta": svmeta, "packed": first.get("packed")})
             recheck("call %d" % i)
             for n_step, st in enumerate(c.get("after", [])):
                 label = "step %d after call %d (%s)" % (n_step, i, st["do"])
                 if st["do"] == "controller":
-                    new_controller(st["host"], None)
+                    new_controller(st["host"], None, st.get("mc"))
                 elif st["do"] == "read_struct":
-                    text = (struct_text(st["table"], random.Random(n_step)) if st["table"] is not None else
-                            open(os.path.join(os.path.dirname(sf_mod.__file__), "..", "boot", "sark.struct"), "rb").read())
+                    text = (struct_text(st["table"], random.Random(n_step)) if st["table"] is not None else default_text())
                     keep_aux("result of read_struct_file in " + label, sf_mod.read_struct_file(text), st["table"])
+                elif st["do"] == "edit_dict":
+                    d = store[st["index"]]
+                    if st["op"] == "set":
+                        d[st["key"]] = py_value(st["value"])
+                    elif st["op"] == "del":
+                        d.pop(st["key"], None)
+                    else:
+                        d.clear()
                 elif st["do"] == "mutate":
                     for r in results:
                         if r["call"] == st["target"] and not r["released"]:
@@ -542,31 +777,74 @@ def expected_structs(table):
         sv = [t for t in _cache["structs"] if t[0] == "sv"][0]
         return {"sv": [list(f) for f in sv[3]], "svmeta": [sv[1], sv[2]],
                 "others": sorted([t[0], t[1], t[2], [list(f) for f in t[3]]] for t in _cache["structs"] if t[0] != "sv")}
-    return {"sv": [list(f) for f in table["fields"]], "svmeta": [table["size"], 0xf5007f00],
-            "others": [["other", 8, 0, [["x", "I", 0, "%d", 7, 1]]]]}
+    return {"sv": [list(f) for f in table["fields"]], "svmeta": [table["size"], table.get("base", 0xf5007f00)],
+            "others": [["other", 8, 0, [["x", "I", 0, "%d", table.get("other", 7), 1]]]]}
 
 
 # ------------------------------------------------------------------ checking
-def own_opts(case, c):
-    """the options call `c` asked for: the caller's dictionary as the caller built it, then kwargs"""
+def edit_pairs(pairs, st):
+    """the caller's edit `st` on an insertion-ordered list of [key, value]"""
+    pairs = [list(p) for p in pairs]
+    if st["op"] == "clear":
+        return []
+    if st["op"] == "del":
+        return [p for p in pairs if p[0] != st["key"]]
+    for p in pairs:
+        if p[0] == st["key"]:
+            p[1] = st["value"]
+            return pairs
+    return pairs + [[st["key"], st["value"]]]
+
+
+def lean_view(case):
+    """The caller's own view of its dictionaries, call by call: the repaired boot() never changes them, the
+    caller's edits (steps `edit_dict`) do.  Every edit makes a new entry of the model's store.  Returns
+    {"store": model store, "idx": model index per call, "base": dictionary contents per call,
+     "final": model index of every caller dictionary at the end}."""
+    store = [[list(p) for p in d] for d in case["store"]]
+    cur = list(range(len(store)))
+    idx, base = [], []
+    for c in case["calls"]:
+        if c["sv"] is None:
+            idx.append(None)
+            base.append([])
+        else:
+            idx.append(cur[c["sv"]])
+            base.append(store[cur[c["sv"]]])
+        for st in c.get("after", []):
+            if st["do"] == "edit_dict":
+                store.append(edit_pairs(store[cur[st["index"]]], st))
+                cur[st["index"]] = len(store) - 1
+    return {"store": store, "idx": idx, "base": base, "final": cur}
+
+
+def own_opts(case, k, view=None):
+    """the options call `k` asked for: the caller's dictionary as the caller last left it, then the keywords"""
+    view = view or lean_view(case)
     d = {}
-    if c["sv"] is not None:
-        for k, v in case["store"][c["sv"]]:
-            d[k] = v
-    for k, v in c["kwargs"]:
-        d[k] = v
-    return [[k, lean_value(v)] for k, v in d.items()]
+    for key, v in view["base"][k]:
+        d[key] = v
+    for key, v in case["calls"][k]["kwargs"]:
+        d[key] = v
+    return [[key, lean_value(v)] for key, v in d.items()]
 
 
-def lean_call(case, c, obs=None):
+def lean_call(case, k, view, obs=None):
     default_table()
+    c = case["calls"][k]
     j = {"host": c["host"], "port": c["port"] if c["port"] is not None else _cache["BOOT_PORT"],
-         "image": image_bytes(c["image"]).hex(), "table": c["table"], "sv": c["sv"],
-         "kwargs": lean_dict(c["kwargs"]), "t1": c["t1"], "t2": c["t2"], "opts": own_opts(case, c)}
+         "image": image_bytes(c["image"]).hex(), "table": lean_table(c["table"]), "sv": view["idx"][k],
+         "kwargs": lean_dict(c["kwargs"]), "t1": c["t1"], "t2": c["t2"], "opts": own_opts(case, k, view)}
     if obs is not None and "ok" in obs["result"]:
         j["datagrams"] = [e[1] for e in obs["events"] if e[0] in ("send", "sendto")]
         j["returned"] = obs["result"]["ok"]
+        if isinstance(obs.get("packed"), str) and not obs["packed"].startswith("error"):
+            j["packed"] = obs["packed"]
     return j
+
+
+def lean_table(t):
+    return None if t is None else {"size": t["size"], "fields": t["fields"]}
 
 
 def in_domain_static(c):
@@ -579,7 +857,8 @@ def nontrivial(case):
     visible) or a result obtained with options is read again after a later boot / caller step"""
     if not all(in_domain_static(c) for c in case["calls"]):
         return False
-    keys = [set(k for k, _ in own_opts(case, c)) for c in case["calls"]]
+    view = lean_view(case)
+    keys = [set(k for k, _ in own_opts(case, i, view)) for i in range(len(case["calls"]))]
     n = len(keys)
     if any(keys[i] - keys[j] for i in range(n) for j in range(i + 1, n)):
         return True
@@ -588,28 +867,56 @@ def nontrivial(case):
                for i in range(n))
 
 
+def expected_outcome(c, m):
+    """what the model's outcome `m` of call `c` looks like on the wire of this call: the two sleeps carry this
+    call's delays, and an injected fault cuts the trace where it strikes (nothing is sent after it)"""
+    bd, pd = c.get("delays", [BOOT_DELAY, POST_DELAY])
+    bd = DEFAULT_DELAYS[0] if bd is None else bd
+    pd = DEFAULT_DELAYS[1] if pd is None else pd
+    ev = [["sleep", bd if e[1] == "boot" else pd] if e[0] == "sleep" else e for e in m["events"]]
+    res = m["result"]
+    f = c.get("fault")
+    if f is None:
+        return ev, res, False
+    if f["kind"] == "nofile":
+        return [], {"err": "OSError"}, True
+    if not ev:                                   # the model fails before the socket is opened
+        return ev, res, False
+    if f["kind"] == "connect":
+        return [], {"err": "OSError"}, True
+    n = -1
+    for i, e in enumerate(ev):
+        if e[0] == "send":
+            n += 1
+            if n == f["n"]:
+                return ev[:i], {"err": "OSError"}, True
+    return ev, res, False
+
+
 def evaluate(ctx, cases):
     """Run histories on implementation and model; return one report per history:
     {"mismatches": [(suite, detail)], "violations": [(key, what)], "tags": [...]}"""
     default_table()
     impl = [run_impl(case) for case in cases]
+    views = [lean_view(case) for case in cases]
     reqs = []
-    for case, (outs, _, _) in zip(cases, impl):
-        reqs.append({"suite": "c20", "op": "history", "leaky": False, "store": [lean_dict(d) for d in case["store"]],
-                     "calls": [lean_call(case, c, o) for c, o in zip(case["calls"], outs)]})
+    for case, view, (outs, _, _) in zip(cases, views, impl):
+        reqs.append({"suite": "c20", "op": "history", "leaky": False, "store": [lean_dict(d) for d in view["store"]],
+                     "calls": [lean_call(case, k, view, o) for k, o in enumerate(outs)]})
     replies = []
     for i in range(0, len(reqs), 25):
         replies += ctx.lean(reqs[i:i + 25])
     reports = []
     leaky_reqs = []
     late_reqs = []
-    for case, (outs, store_after, kept), req, rep in zip(cases, impl, reqs, replies):
+    for case, view, (outs, store_after, kept), req, rep in zip(cases, views, impl, reqs, replies):
         r = {"mismatches": [], "violations": [], "tags": [], "leakcheck": None}
         reports.append(r)
         if "proto_error" in rep:
             r["mismatches"].append(("c20.protocol", rep["proto_error"]))
             continue
         differs = False
+        r["tags"] += ["dict_" + kd for kd in case.get("store_kinds", [])]
         for k, (c, o, m, sp) in enumerate(zip(case["calls"], outs, rep["outcomes"], rep["specs"])):
             ctx.traces += 1
             res = o["result"]
@@ -617,34 +924,64 @@ def evaluate(ctx, cases):
             r["tags"] += ["result_" + kind, "via_" + c["via"], "image_" + c["image"]["kind"],
                           "table_" + ("default" if c["table"] is None else "synthetic"),
                           "opts_" + ("none" if not c["kwargs"] and c["sv"] is None else
-                                     "kwargs" if c["sv"] is None else "dict")]
+                                     "kwargs" if c["sv"] is None else "dict" if not c["kwargs"] else "both"),
+                          "style_" + c.get("style", "keyword"), "paths_" + c.get("paths", "str"),
+                          "delays_" + ("default" if None in c.get("delays", [1, 1]) else
+                                       "zero" if 0 in c.get("delays", [1, 1]) else "given"),
+                          "port_" + ("default" if c["port"] is None else "edge" if c["port"] in (0, 1, 65535) else "given")]
+            r["tags"] += ["value_" + (v["k"] if isinstance(v, dict) else type(v).__name__)
+                          for _, v in list(c["kwargs"]) + list(view["base"][k])]
+            r["tags"] += ["value_big" for _, v in list(c["kwargs"]) + list(view["base"][k]) if abs(lean_value(v)) >= 2 ** 31]
+            if c.get("mc"):
+                r["tags"] += ["mc_" + x for x in ("subclass", "structs") if c["mc"].get(x)] + (
+                    ["mc_width"] if c["mc"].get("width") is not None else [])
+            if k and {x: y for x, y in c.items() if x not in ("after", "fault")} == {
+                    x: y for x, y in case["calls"][k - 1].items() if x not in ("after", "fault")}:
+                r["tags"].append("same_call_again")
             if "ok" in res:
                 r["tags"].append("blocks_%02d" % sum(1 for e in o["events"] if e[0] == "send" and e[1][8:12] == "0003"))
+            want_ev, want_res, struck = expected_outcome(c, m)
+            if c.get("fault"):
+                r["tags"].append("fault_%s_%s" % (c["fault"]["kind"], "struck" if struck else "not_reached"))
             mres = dict(res)
             mres.pop("detail", None)
-            if o["events"] != m["events"] or mres != m["result"]:
+            if res.get("err") == "DidNotReturn":
                 differs = True
-                ev_i = next((i for i, (a, b) in enumerate(zip(o["events"], m["events"])) if a != b),
-                            min(len(o["events"]), len(m["events"])))
+                if sp and sp.get("domain") and sp.get("opts_valid"):
+                    r["violations"].append(("did-not-return", "call %d: boot() did not return (%s); the model of this call terminates and "
+                                            "sends %d datagrams" % (k, res.get("detail"), sum(1 for e in m["events"] if e[0] == "send"))))
+                else:
+                    r["mismatches"].append(("c20.boot_call", "call %d: boot() did not return (%s)" % (k, res.get("detail"))))
+                continue
+            if o["events"] != want_ev or mres != want_res:
+                differs = True
+                ev_i = next((i for i, (a, b) in enumerate(zip(o["events"], want_ev)) if a != b),
+                            min(len(o["events"]), len(want_ev)))
                 r["mismatches"].append(("c20.boot_call", "call %d: impl result %s, %d events; model result %s, %d events; first differing event %d" % (
-                    k, str(res)[:150], len(o["events"]), str(m["result"])[:150], len(m["events"]), ev_i)))
+                    k, str(res)[:150], len(o["events"]), str(want_res)[:150], len(want_ev), ev_i)))
             if "ok" in res:
                 want = expected_structs(c["table"])
                 if o["others"] != want["others"] or o["svmeta"] != want["svmeta"]:
                     r["mismatches"].append(("c20.struct_file", "call %d: returned structs (other than sv's defaults) differ from the independent parse of the struct file of this call" % k))
+                if sp and sp.get("packed_model") is False:
+                    r["mismatches"].append(("c20.pack", "call %d: pack() of the returned sv definition differs from the model's structPack of the same fields" % k))
+            if struck:
+                continue                                   # the property says nothing about a boot that lost its network
             # ---- property oracle (Lean spec on the implementation's output)
             if sp and sp.get("domain") and sp.get("opts_valid"):
                 r["tags"].append("oracle_applied")
                 if "ok" not in res:
                     r["violations"].append(("boot-raises-on-valid-call",
                                             "call %d of the history is inside the property's domain with valid options but boot() raised %s" % (k, res)))
-                elif not sp["all"]:
+                elif not sp["all"] or sp.get("packed_ok") is False:
                     bad = [x for x in ("shape", "image", "config", "returned") if not sp[x]]
+                    if sp.get("packed_ok") is False:
+                        bad.append("pack() of the returned definition != configuration sent")
                     key = ("datagram-sequence" if "shape" in bad else
                            "image-bytes" if "image" in bad else
                            "config-area" if "config" in bad else "returned-struct")
                     r["violations"].append((key, "call %d: Lean specification fails on the implementation's output, clauses %s (options asked for: %s)" % (
-                        k, bad, own_opts(case, c))))
+                        k, bad, own_opts(case, k, view))))
             elif sp and "ok" in res:
                 r["tags"].append("oracle_out_of_domain")
         # ---- kept results: every returned dictionary re-read after every later boot / caller step
@@ -659,43 +996,54 @@ def evaluate(ctx, cases):
             k = l["call"]
             c, sp, first = case["calls"][k], rep["specs"][k], outs[k]
             r["mismatches"].append(("c20.kept_result", "the result returned by call %d reads differently after %s" % (k, l["after"])))
-            applicable = bool(sp and sp.get("domain") and sp.get("opts_valid") and sp.get("all"))
-            j = lean_call(case, c)
+            applicable = bool(sp and sp.get("domain") and sp.get("opts_valid") and sp.get("all")
+                              and sp.get("packed_ok") is not False)
+            j = lean_call(case, k, view)
             j.update(suite="c20", op="retcheck", image="", returned=(l["snap"].get("sv") or []))
+            pk = l["snap"].get("packed")
+            if isinstance(pk, str) and not pk.startswith("error"):
+                j["packed"] = pk
             late_reqs.append((r, k, l, first, applicable, j))
-        if store_after != rep["state"]["store"]:
+        model_final = [rep["state"]["store"][i] for i in view["final"]]
+        if store_after != model_final:
             differs = True
-            r["mismatches"].append(("c20.caller_dict", "caller dictionaries after the history: impl %s model %s" % (
-                str(store_after)[:200], str(rep["state"]["store"])[:200])))
+            r["mismatches"].append(("c20.caller_dict", "caller dictionaries after the history: impl %s, caller's own edits give %s" % (
+                str(store_after)[:200], str(model_final)[:200])))
         if differs:
             r["leakcheck"] = len(leaky_reqs)
             lr = dict(req)
             lr["leaky"] = True
-            leaky_reqs.append((lr, outs, store_after))
+            leaky_reqs.append((lr, outs, store_after, case, view))
     if late_reqs:
         for (r, k, l, first, applicable, j), ans in zip(late_reqs, ctx.lean([x[5] for x in late_reqs])):
-            if applicable and ans.get("returned") is False:
+            if applicable and (ans.get("returned") is False or ans.get("packed_ok") is False):
                 now, was = l["snap"].get("sv"), first["result"]["ok"]
                 byname = {f[0]: f for f in (now or [])}
                 diff = "the sv entry is gone" if now is None else next(
                     (("sv.%s is no longer described" % b[0]) if b[0] not in byname else
                      ("sv.%s is now described as %r (pack %s at offset %d) but %r (pack %s at offset %d) was sent" % (
                          b[0], byname[b[0]][4], byname[b[0]][1], byname[b[0]][2], b[4], b[1], b[2]))
-                     for b in was if byname.get(b[0]) != b), "fields were added or reordered")
+                     for b in was if byname.get(b[0]) != b),
+                    "fields were added or reordered" if ans.get("returned") is False else
+                    "pack() of the kept definition no longer gives the configuration that was sent")
                 r["violations"].append(("kept-result-changed",
                                         "the struct definitions returned by call %d were correct right after that boot but no longer describe what "
-                                        "was sent to that board after %s: %s (Lean returnedOK fails on the kept result; options of call %d: %s)" % (
+                                        "was sent to that board after %s: %s (Lean returnedOK / configOK fails on the kept result; options of call %d: %s)" % (
                                             k, l["after"], diff, k, j["opts"])))
     if leaky_reqs:
         lreps = ctx.lean([x[0] for x in leaky_reqs])
         for r in reports:
             if r["leakcheck"] is None:
                 continue
-            lr, outs, store_after = leaky_reqs[r["leakcheck"]]   # noqa
+            lr, outs, store_after, case, view = leaky_reqs[r["leakcheck"]]
             rep = lreps[r["leakcheck"]]
-            same = "outcomes" in rep and store_after == rep["state"]["store"] and all(
-                o["events"] == m["events"] and {k: v for k, v in o["result"].items() if k != "detail"} == m["result"]
-                for o, m in zip(outs, rep["outcomes"]))
+            same = "outcomes" in rep and not any(st["do"] == "edit_dict" for c in case["calls"] for st in c.get("after", []))
+            same = same and store_after == [rep["state"]["store"][i] for i in view["final"]]
+            if same:
+                for c, o, m in zip(case["calls"], outs, rep["outcomes"]):
+                    want_ev, want_res, _ = expected_outcome(c, m)
+                    if o["events"] != want_ev or {k: v for k, v in o["result"].items() if k != "detail"} != want_res:
+                        same = False
             r["tags"].append("matches_leaky_model" if same else "matches_neither_model")
             if same:
                 # the difference is exactly the in-place update of the dictionary boot() was handed
@@ -790,6 +1138,10 @@ def report(ctx, cases, reports, do_shrink=True):
     for case, r in zip(cases, reports):
         for t in r["tags"]:
             ctx.tag(t)
+        if case.get("twin"):
+            ctx.tag("twin_" + case["twin"])
+        if case.get("scale"):
+            ctx.tag("scale_" + case["scale"])
         for suite, detail in r["mismatches"]:
             ctx.mismatch(suite, detail, case)
         for key, what in r["violations"]:
@@ -861,6 +1213,175 @@ def fixed_cases():
              "calls": [z1, z2, z3]}]
 
 
+def gen_twins(rng):
+    """two boots equal in all but ONE aspect, as the histories [A, B] and [B, A]"""
+    default_table()
+    aspect = rng.choice(["option_value", "option_added", "option_zero", "host", "port", "image_byte", "clock",
+                         "delivery", "layout_default", "layout_base", "delay", "via"])
+    tab = default_table() if (rng.random() < 0.6 and not aspect.startswith("layout")) else gen_table_wf(rng)
+    table = None if tab is default_table() else tab
+    a = {"host": "board0", "port": None, "image": gen_image(rng, 4 * rng.randrange(128, 700)), "table": table,
+         "sv": None, "kwargs": [p for p in gen_opts(rng, tab, False) if isinstance(p[1], int)], "via": "function",
+         "t1": 1443571200, "t2": 1443571201, "after": []}
+    b = json.loads(json.dumps(a))
+    store = []
+    fields = [f for f in tab["fields"] if f[0] not in RESERVED and f[0] not in ("unix_time", "boot_sig", "root_chip")
+              and f[1] in RANGE]
+    if aspect == "option_value" and a["kwargs"]:
+        j = rng.randrange(len(a["kwargs"]))
+        b["kwargs"][j][1] = (lean_value(a["kwargs"][j][1]) + 1) % 128
+    elif aspect == "option_added" and fields:
+        f = rng.choice(fields)
+        b["kwargs"] = [p for p in b["kwargs"] if p[0] != f[0]] + [[f[0], rng.choice([1, RANGE[f[1]][1]])]]
+        a["kwargs"] = [p for p in a["kwargs"] if p[0] != f[0]]
+    elif aspect == "option_zero":
+        nz = [f for f in fields if f[4] != 0]
+        if nz:
+            f = rng.choice(nz)
+            b["kwargs"] = [p for p in b["kwargs"] if p[0] != f[0]] + [[f[0], 0]]
+            a["kwargs"] = [p for p in a["kwargs"] if p[0] != f[0]]
+    elif aspect == "host":
+        b["host"] = "board1"
+    elif aspect == "port":
+        b["port"] = rng.choice([0, 1, 54320, 65535])
+    elif aspect == "image_byte":
+        b["image"] = dict(a["image"], flip=rng.randrange(a["image"]["len"]))
+    elif aspect == "clock":
+        b["t1"], b["t2"] = a["t1"] + 1, a["t2"] + 1
+    elif aspect == "delivery":
+        store = [[list(p) for p in a["kwargs"]]]
+        b["kwargs"], b["sv"] = [], 0
+    elif aspect == "layout_default" and table is not None and fields:
+        t = json.loads(json.dumps(table))
+        f = rng.choice([g for g in t["fields"] if g[0] in [x[0] for x in fields]])
+        f[4] = (f[4] + 1) % 100
+        b["table"] = t
+    elif aspect == "layout_base" and table is not None:
+        b["table"] = dict(json.loads(json.dumps(table)), base=0x1000, other=9)
+    elif aspect == "delay":
+        b["delays"] = [0, 0]
+    elif aspect == "via":
+        a["host"] = b["host"] = "127.0.0.5"
+        b["via"] = "controller"
+    else:
+        aspect += "_same"
+    one = {"store": store, "calls": [a, b], "twin": aspect}
+    two = {"store": json.loads(json.dumps(store)), "calls": [json.loads(json.dumps(b)), json.loads(json.dumps(a))],
+           "twin": aspect}
+    return [one, two]
+
+
+def gen_table_wf(rng):
+    for _ in range(50):
+        t = gen_table(rng)
+        names = [f[0] for f in t["fields"]]
+        if t["size"] >= 128 and all(n in names for n in ("unix_time", "boot_sig", "root_chip")) and all(
+                f[1] in RANGE for f in t["fields"]):
+            return t
+    return default_table()
+
+
+def gen_scale(rng, which):
+    """far beyond the usual size, a handful per run"""
+    default_table()
+    base = {"host": "board0", "port": None, "image": gen_image(rng, 1024), "table": None, "sv": None, "kwargs": [],
+            "via": "function", "t1": 1443571200, "t2": 1443571200, "after": []}
+    if which == "fields":                       # a struct of hundreds of fields, half of them overridden
+        fields, off = [], 0
+        for n in ["unix_time", "boot_sig", "root_chip"] + ["v%d" % i for i in range(400)]:
+            pk = {"unix_time": "I", "boot_sig": "I", "root_chip": "B"}.get(n) or rng.choice("BbHI")
+            w = struct.calcsize("<" + pk)
+            fields.append([n, pk, off, "%d", rng.randint(*RANGE[pk]), 1])
+            off += w
+        t = {"size": off + rng.choice([0, 3]), "fields": fields, "comments": 3000}
+        fields[5][5] = 65537                    # an array of 65,537 elements
+        kw = [[f[0], rng.randint(*RANGE[f[1]])] for f in rng.sample(fields[3:], 200)]
+        return {"store": [kw[100:]], "calls": [dict(base, table=t, kwargs=kw[:100], sv=0), dict(base, table=t, host="board1")],
+                "scale": which}
+    if which == "options":                      # every variable of sv overridden in one call
+        tab = default_table()
+        fs = [f for f in tab["fields"] if f[0] not in ("unix_time", "boot_sig", "root_chip")]
+        kw = [[f[0], rng.randint(*RANGE[f[1]])] for f in fs if f[0] not in RESERVED]
+        dd = [[f[0], rng.randint(*RANGE[f[1]])] for f in fs]
+        return {"store": [dd], "calls": [dict(base, kwargs=kw, sv=0, image={"kind": "default"}), dict(base, host="board1")],
+                "scale": which}
+    # a long history: 40 boots, two controllers and two layouts used alternately
+    t2 = gen_table_wf(rng)
+    calls = []
+    for i in range(40):
+        tab = None if i % 2 == 0 else (t2 if t2 is not default_table() else None)
+        c = dict(base, host="127.0.0.%d" % (1 + i % 2), via="controller" if i % 3 else "function", table=tab,
+                 image=gen_image(rng, 512 + 4 * (i % 5)),
+                 kwargs=gen_opts(rng, tab or default_table(), False) if i % 4 != 3 else [])
+        calls.append(c)
+    return {"store": [], "calls": calls, "scale": which}
+
+
+def packet_stream(ctx, n):
+    """boot_packet() called directly: positional and keyword, commands as BootCommand members / ints / numpy ints,
+    arguments up to and beyond 32 bits, data as bytes / bytearray / memoryview of every length mod 4"""
+    import rig.machine_control.boot as boot_mod
+    from harness import common
+    rng = ctx.rng
+    cases = []
+    for _ in range(n):
+        cmd = rng.choice([1, 3, 5, 0, 2, 255, 2 ** 32 - 1] + ([rng.choice([-1] + BIG[3:])] if rng.random() < 0.1 else []))
+        args = [rng.choice([0, 1, 255, (255 << 8) | rng.randrange(256), 2 ** 31, 2 ** 32 - 1, rng.randrange(2 ** 32)] +
+                           ([rng.choice([-1] + BIG[3:])] if rng.random() < 0.06 else [])) for _ in range(3)]
+        ln = rng.choice([0, 0, 4, 8, 1024, 1028, 4 * rng.randrange(300), rng.randrange(1, 40)])
+        data = rng.randbytes(ln)
+        case = {"cmd": cmd, "args": args, "data": data.hex(), "cmd_kind": rng.choice(["int", "enum", "np"]),
+                "data_kind": rng.choice(["bytes", "bytes", "bytearray", "memoryview"]),
+                "style": rng.choice(["positional", "positional", "keyword", "keyword", "defaults"])}
+        if case["style"] == "defaults":
+            case["args"], case["data"] = [0, 0, 0], ""
+        cases.append(case)
+    packet_eval(ctx, cases)
+
+
+def packet_eval(ctx, cases):
+    import rig.machine_control.boot as boot_mod
+    from harness import common
+    impl = []
+    for case in cases:
+        log = []
+        sock = FakeSock(log, True, FakeSocketModule(log))
+        cmd = case["cmd"]
+        if case["cmd_kind"] == "enum" and cmd in (1, 3, 5):
+            cmd = boot_mod.BootCommand(cmd)
+        elif case["cmd_kind"] == "np" and 0 <= cmd < 2 ** 63:
+            cmd = py_value({"k": "np", "v": cmd})
+        else:
+            case["cmd_kind"] = "int"
+        data = bytes.fromhex(case["data"])
+        data = bytearray(data) if case["data_kind"] == "bytearray" else memoryview(data) if case["data_kind"] == "memoryview" else data
+        a1, a2, a3 = case["args"]
+        try:
+            with common.cpu_limit(hang_limit()):
+                if case["style"] == "positional":
+                    boot_mod.boot_packet(sock, cmd, a1, a2, a3, data)
+                elif case["style"] == "keyword":
+                    boot_mod.boot_packet(sock, cmd, arg3=a3, data=data, arg1=a1, arg2=a2)
+                else:
+                    boot_mod.boot_packet(sock, cmd)
+            impl.append({"ok": log[0]} if len(log) == 1 else {"err": "events", "detail": str(log)[:200]})
+        except common.ImplHang as e:
+            _HANGS[0] += 1
+            impl.append({"err": "DidNotReturn", "detail": str(e)})
+        except Exception as e:      # noqa
+            impl.append(classify(e))
+    reps = ctx.lean([{"suite": "c20", "op": "packet", "cmd": c["cmd"], "a1": c["args"][0], "a2": c["args"][1],
+                      "a3": c["args"][2], "data": c["data"]} for c in cases])
+    for case, o, m in zip(cases, impl, reps):
+        ctx.traces += 1
+        ctx.tag("packet_" + ("ok" if "ok" in o else o["err"].split(":")[0]), "packet_data_" + case["data_kind"],
+                "packet_cmd_" + case["cmd_kind"], "packet_style_" + case["style"])
+        o = {k: v for k, v in o.items() if k != "detail"}
+        if o != m:
+            ctx.mismatch("c20.boot_packet", "boot_packet: impl %s model %s" % (str(o)[:200], str(m)[:200]), {"packet": case})
+        ctx.case({"packet": case}, "ok" in o and len(case["data"]) > 0)
+
+
 def load_corpus():
     from harness import common
     import json
@@ -889,14 +1410,25 @@ def run(ctx):
                     cases.append(gen_history(rng, force_len=ln))
     for _ in range(n):
         cases.append(gen_history(rng))
+    for _ in range(ctx.scale(30, 300) * (4 if ctx.extended else 1)):
+        cases += gen_twins(rng)
+    for which in ["fields", "options", "history"] + ([] if ctx.quick else ["fields", "options", "history"] * 2):
+        cases.append(gen_scale(rng, which))
     for i in range(0, len(cases), 50):
+        if _HANGS[0] >= 20:
+            ctx.tag("stopped_after_20_calls_that_did_not_return")
+            break
         chunk = cases[i:i + 50]
         report(ctx, chunk, evaluate(ctx, chunk))
+    packet_stream(ctx, ctx.scale(300, 5000))
 
 
 def replay(ctx, payload):
     prepare(ctx)
     case = payload["case"]
+    if "packet" in case:
+        packet_eval(ctx, [case["packet"]])
+        return
     if "calls" not in case:
         return
     report(ctx, [case], evaluate(ctx, [case]), do_shrink=False)
